@@ -12,18 +12,7 @@ from .control import ControlWorld, gen_command, public_members
 WAITERS = ("gather-and-close", "until-closed", "flush")
 PROBES = {"num-running": "num_running", "num-cancelled": "num_cancelled", "num-ended": "num_ended",
           "is-locked": "is_locked", "is-full": "is_full", "pool-size": "pool_size"}
-GROUPS = ["g1", "g2", "grp", "apply-work-group-0", "x_y", "G", "7", "start-group-0", "start-group-1", "map-one-group-0",
-          "apply-work-group-1", "apply-block-group-0", "map-work-group-0", "starmap-work-group-0", "doublestarmap-work-group-0"]
-
-
-def snapshot(pool):
-    groups = {}
-    for g in GROUPS:
-        try:
-            groups[g] = frozenset(pool.get_group_ids(g))
-        except Exception:  # noqa: BLE001
-            pass
-    return (pool.num_running, pool.num_cancelled, pool.num_ended, pool.is_locked, pool.is_full, pool.pool_size, groups)
+from .snap import GROUPS, snapshot  # noqa: E402,F401
 
 
 def junk(rng):
@@ -277,3 +266,80 @@ class World(ControlWorld):
         for r in self.refs.values():
             r.reader.feed_eof()
         await self.idle()
+
+
+# ---------------------------------------------------------------------- the same over a real server
+from . import c19  # noqa: E402
+
+
+class SocketWorld(c19.World):
+    """Several clients of one real control server: each line is answered to the client that sent it, whoever connected first leaves."""
+
+    def violate(self, clause, msg):
+        if not clause.startswith("C18."):
+            clause = "C18.alive"
+        super().violate(clause, msg)
+
+    async def _main2(self):
+        sc = self.sc
+        started = await self.start_server(clause="C18.alive")
+        if started is None:
+            return
+        srv, task = started
+        rng = random.Random(sc["seed"])
+        cls = type(self.pool)
+        n = sc["nclients"]
+        for c in range(n):
+            await self.connect(c)
+        alive = [c for c in range(n) if self.clients.get(c) is not None and self.clients[c].open]
+        for step in range(sc["n"]):
+            if not alive:
+                break
+            x = rng.random()
+            if x < 0.12 and len(alive) > 1:
+                # somebody leaves - preferably whoever connected first - and everybody else must stay served
+                c = alive[0] if rng.random() < 0.6 else rng.choice(alive)
+                await self.disconnect(self.clients[c], rng.choice(["close", "eof", "abort"]))
+                alive.remove(c)
+                self.sit["C18.socket_client_left"] += 1
+                continue
+            c = rng.choice(alive)
+            cl = self.clients[c]
+            if x < 0.5:
+                key = rng.choice(list(PROBES))
+                got = await self.command(cl, key)
+                want = (str(getattr(self.pool, PROBES[key])) + "\n").encode()
+                if got != want:
+                    self.violate("C18.probe_exact", f"client {c} of {sorted(alive)}: {key} answered {got[:80]!r}, expected {want!r}")
+                    return
+                self.sit["C18.socket_probe_ok"] += 1
+            elif x < 0.75:
+                line = invalid_line(cls, rng, None)
+                before = snapshot(self.pool)
+                got = await self.command(cl, line)
+                if not got.strip():
+                    self.violate("C18.answered", f"client {c}: no / empty reply to {line!r} over the socket")
+                    return
+                if snapshot(self.pool) != before:
+                    self.violate("C18.invalid_no_change", f"client {c}: invalid line {line!r} changed the pool")
+                self.sit["C18.socket_invalid_ok"] += 1
+            else:
+                line = rng.choice(["lock", "unlock", "cancel-all", "flush -r", "get-group-ids"])
+                got = await self.command(cl, line)
+                if not got:
+                    self.violate("C18.one_reply", f"client {c}: no reply to {line!r} over the socket")
+                    return
+            for o in alive:
+                if o != c and self.clients[o].inbox:
+                    self.violate("C18.isolation", f"client {o} received {self.clients[o].take()[:60]!r} although client {c} sent the line")
+                    return
+        for c in list(alive):
+            await self.disconnect(self.clients[c], "close")
+        task.cancel()
+        self.stopped = True
+        await self.settle()
+
+
+def gen_socket_case(rng):
+    return {"sockets": True, "transport": rng.choice(["unix", "unix", "tcp"]), "cls": rng.choice(["T", "S"]), "order": [], "nclients": rng.choice([2, 2, 3]),
+            "n": rng.randint(6, 16), "seed": rng.getrandbits(32)}
